@@ -279,6 +279,13 @@ def append (c : Codec) (a b : Enc) : Option Enc :=
         some { a with blocksRev := b.blocksRev ++ a.blocksRev }
       else none
 
+/-- appending the encoders of the later chunks, in order -/
+def appendAll (c : Codec) : Enc → List Enc → Option Enc
+  | a, [] => some a
+  | a, b :: r => match append c a b with
+    | none => none
+    | some ab => appendAll c ab r
+
 structure Reader where
   blocks : List Block
 deriving Inhabited
